@@ -38,7 +38,7 @@ int __wrap__aes_self_tests(void)
         __atomic_add_fetch(&n_aes, 1, __ATOMIC_SEQ_CST);
         for (volatile int i = 0; i < stub_spin; i++) ;
         if (run_real) (void) __real__aes_self_tests();
-        return verdict_fail ? 1 : 0;
+        return verdict_fail == 1 ? 1 : 0;      /* verdict_fail: 1 = the AES group fails, 2 = only the SHA group fails */
 }
 int __wrap__sha_self_tests(void);
 int __wrap__sha_self_tests(void)
@@ -47,7 +47,7 @@ int __wrap__sha_self_tests(void)
         for (volatile int i = 0; i < stub_spin; i++) ;
         if (run_real) (void) __real__sha_self_tests();
         t_selftest_exit = tick();
-        return 0;
+        return verdict_fail == 2 ? 1 : 0;
 }
 
 /* what a thread does as its first library call */
@@ -180,7 +180,7 @@ static void mode_sched(void)
                 for (uint64_t c = g_from; c < g_from + g_count; c++) {
                         rng_seed(&sched_rng, mix64(g_seed ^ 0x5c4ed, c));
                         nthr = 2 + (int) rng_below(&sched_rng, 3);
-                        verdict_fail = (int) rng_below(&sched_rng, 2);
+                        verdict_fail = (int) rng_below(&sched_rng, 3);
                         for (int i = 0; i < nthr; i++) kinds[i] = rng_below(&sched_rng, 3) ? 0 : 1 + (int) rng_below(&sched_rng, 2);
                         sw_pct = 2 + (int) rng_below(&sched_rng, 40); npre = -1;
                         snprintf(rb, sizeof rb, "{\"engine\":\"fipssched\",\"mode\":\"sched\",\"seed\":%llu,\"case\":%llu}", (unsigned long long) g_seed, (unsigned long long) c);
@@ -265,7 +265,7 @@ static void mode_stress(void)
                 if ((c & 1023) == 0) { struct timespec ts; clock_gettime(CLOCK_MONOTONIC, &ts); if (ts.tv_sec - ts0.tv_sec > budget && c - g_from >= 2000) { out_note("stress stopped after %llu rounds (time budget; machine loaded)", (unsigned long long) (c - g_from)); break; } }
                 rng_t r; rng_seed(&r, mix64(g_seed ^ 0x57e55, c));
                 active_n = rng_below(&r, 4) == 0 ? 1 + (int) rng_below(&r, (uint32_t) POOL) : 1 + (int) rng_below(&r, (uint32_t) (POOL < 8 ? POOL : 8));
-                verdict_fail = (int) rng_below(&r, 2);
+                verdict_fail = (int) rng_below(&r, 3);
                 run_real = rng_below(&r, 200) == 0;
                 stub_spin = rng_below(&r, 3) ? (int) rng_below(&r, 400) : (int) rng_below(&r, 20000);
                 for (int i = 0; i < active_n; i++) { kind_of[i] = rng_below(&r, 2) ? 0 : 1 + (int) rng_below(&r, 2); delay_of[i] = rng_below(&r, 2) ? 0 : (int) rng_below(&r, 300); rc_of[i] = -99; }
